@@ -139,11 +139,15 @@ def main():
     seed = int(os.environ.get('VERIF_SEED', '1') or 1)
     cfg = PROPS[pid]
     t_start = time.time()
-    work = os.path.join(ROOT, 'work', pid)
+    alt_repo = os.environ.get('VERIF_REPO')
+    if alt_repo and os.path.realpath(alt_repo) == '/repo':
+        alt_repo = None
+    sfx = '-alt' if alt_repo else ''     # mutation testing against a scratch worktree: separate work/evidence/target dirs
+    work = os.path.join(ROOT, 'work', pid + sfx)
     shutil.rmtree(work, ignore_errors=True)
     os.makedirs(work, exist_ok=True)
     os.makedirs(os.path.join(ROOT, 'cache'), exist_ok=True)
-    os.makedirs(os.path.join(ROOT, 'evidence'), exist_ok=True)
+    os.makedirs(os.path.join(ROOT, 'evidence' + sfx), exist_ok=True)
     os.makedirs(os.path.join(ROOT, 'replay'), exist_ok=True)
     log = open(os.path.join(work, 'log.txt'), 'w')
 
@@ -199,7 +203,16 @@ def main():
         rj = json.load(open(replay))
         seed = rj.get('seed', seed); n = rj.get('n', n)
     if rc_c == 0 and cfg.get('bin'):
-        rc, out, dt = sh(['cargo', 'build', '--offline', '--bin', cfg['bin']], cwd=os.path.join(ROOT, 'harness'), timeout=3400,
+        hdir = os.path.join(ROOT, 'harness')
+        tdir = os.path.join(ROOT, 'cache', 'target')
+        if alt_repo:
+            hdir = os.path.join(ROOT, 'cache', 'harness-alt'); tdir = os.path.join(ROOT, 'cache', 'target-alt')
+            sh(['rsync', '-a', '--delete', os.path.join(ROOT, 'harness') + '/', hdir + '/'])
+            ct = open(os.path.join(hdir, 'Cargo.toml')).read().replace('path = "/repo"', f'path = "{os.path.realpath(alt_repo)}"')
+            open(os.path.join(hdir, 'Cargo.toml'), 'w').write(ct)
+            cc = open(os.path.join(hdir, '.cargo', 'config.toml')).read().replace('/verif/cache/target', tdir)
+            open(os.path.join(hdir, '.cargo', 'config.toml'), 'w').write(cc)
+        rc, out, dt = sh(['cargo', 'build', '--offline', '--bin', cfg['bin']], cwd=hdir, timeout=3400,
                          env=dict(os.environ, CARGO_NET_OFFLINE='true'))
         log.write(out)
         note(f'[{pid}] harness build {dt:.1f}s rc={rc}')
@@ -208,7 +221,7 @@ def main():
             broken.append('harness build (API the correspondence drives no longer compiles)')
         else:
             # ---- (5) run the implementation
-            exe = os.path.join(ROOT, 'cache', 'target', 'debug', cfg['bin'])
+            exe = os.path.join(tdir, 'debug', cfg['bin'])
             cmd = [exe, '--seed', str(seed), '--n', str(n), '--out', work] + cfg.get('bin_args', [])
             if replay and 'idx' in rj:
                 cmd += ['--only', str(rj['idx'])]
@@ -321,10 +334,14 @@ def main():
         'wall_s': round(time.time() - t_start, 2),
         'violations': len(violations) + (1 if (broken and not violations) else 0),
     }
-    json.dump(ev, open(os.path.join(ROOT, 'evidence', f'{pid}.json'), 'w'), indent=1)
+    json.dump(ev, open(os.path.join(ROOT, 'evidence' + sfx, f'{pid}.json'), 'w'), indent=1)
     for l in out_lines:
         note(l)
     note(f'[{pid}] tier={tier} seed={seed} obligations {n_dis}/{n_obl} evaluations={evals} distinct_nontrivial={len(keys)} exit={exit_code} wall={time.time()-t_start:.1f}s')
+    if alt_repo and cfg.get('gen'):
+        # restore Gen/*.v to /repo's tables so the shared coq/ tree is not left in the mutant's state
+        env = dict(os.environ); env.pop('VERIF_REPO', None)
+        sh([sys.executable, os.path.join(ROOT, 'tools', 'translate.py')] + cfg['gen'], cwd=ROOT, env=env)
     if replay:
         for idx in sorted(cases):
             note('REPLAY case', idx, json.dumps(cases[idx]['desc'])[:4000])
